@@ -217,8 +217,10 @@ def parse_python_ast(
     try:
         tree = ast.parse(context.file_content or "")
         return tree, []
-    except SyntaxError as e:
-        violation = violation_builder.create_syntax_error_violation(e, context)
+    except (SyntaxError, RecursionError, MemoryError) as e:
+        # Parser resource limits (too deep / too long expressions) are reported like syntax errors
+        error = e if isinstance(e, SyntaxError) else SyntaxError(str(e))
+        violation = violation_builder.create_syntax_error_violation(error, context)
         return None, [violation]
 
 
